@@ -19,15 +19,15 @@ import (
 )
 
 type C06Case struct {
-	Carriers []int `json:"carriers"`       // from the sandboxed include downwards
-	Pos      int   `json:"pos"`            // occurrence position
-	Fn       bool  `json:"fn"`             // forbidden function instead of filter
-	MainWrap int   `json:"mainwrap"`       // how the unsandboxed template holds the include
-	IncOpts  int   `json:"incopts"`        // options on the sandboxed include itself: bit0 with, bit1 only
+	Carriers []int `json:"carriers"`        // from the sandboxed include downwards
+	Pos      int   `json:"pos"`             // occurrence position
+	Fn       bool  `json:"fn"`              // forbidden function instead of filter
+	MainWrap int   `json:"mainwrap"`        // how the unsandboxed template holds the include
+	IncOpts  int   `json:"incopts"`         // options on the sandboxed include itself: bit0 with, bit1 only
 	Order    int   `json:"order,omitempty"` // 0: with, only, sandboxed; 1-6: `ignore missing` added and the options written in another order
-	Custom   bool  `json:"custom"`         // harness policy type instead of DefaultSecurityPolicy
+	Custom   bool  `json:"custom"`          // harness policy type instead of DefaultSecurityPolicy
 	Embed    bool  `json:"embed,omitempty"` // a policy type that embeds a DefaultSecurityPolicy (whose tables say the opposite about the spy) and overrides its methods
-	Deny     bool  `json:"deny,omitempty"` // the refused names are listed in the policy with the value false instead of being absent
+	Deny     bool  `json:"deny,omitempty"`  // the refused names are listed in the policy with the value false instead of being absent
 	// second arm (checkC06Named): an explicit occurrence and the names the policy refuses,
 	// "f:<name>" for a function, "|<name>" for a filter; built-in names included
 	Occ    string   `json:"occ,omitempty"`
